@@ -30,14 +30,14 @@ import (
 // ---------------------------------------------------------------- case format
 
 type obsT struct {
-	Ms     []string                                `json:"ms"`
-	MsOpt  []string                                `json:"msOpt"`
-	TagOpt []string                                `json:"tagOpt"`
-	Mser   map[string][]int                        `json:"mser"`
-	Kser   map[string]map[string][]int             `json:"kser"`
-	Vser   map[string]map[string]map[string][]int  `json:"vser"`
-	Keys   map[string][]string                     `json:"keys"`
-	Vals   map[string]map[string][]string          `json:"vals"`
+	Ms     []string                               `json:"ms"`
+	MsOpt  []string                               `json:"msOpt"`
+	TagOpt []string                               `json:"tagOpt"`
+	Mser   map[string][]int                       `json:"mser"`
+	Kser   map[string]map[string][]int            `json:"kser"`
+	Vser   map[string]map[string]map[string][]int `json:"vser"`
+	Keys   map[string][]string                    `json:"keys"`
+	Vals   map[string]map[string][]string         `json:"vals"`
 }
 
 type entT struct {
@@ -59,17 +59,17 @@ type serT struct {
 }
 
 type caseT struct {
-	Mode      string  `json:"mode"`
-	Tab       []serT  `json:"tab"` // abstract series table (SeriesTab of the spec), index 1-based in steps
-	Steps     []stepT `json:"steps"`
-	KeepSfile bool    `json:"keepSfile"`
-	CacheSize int     `json:"cacheSize"`
-	Parts     int     `json:"parts"`
-	MaxLog    int64   `json:"maxLog"`
-	Variant   int     `json:"variant"`
-	Sweep     int     `json:"sweep"`    // crash images per step (0 = none)
-	Manifest  bool    `json:"manifest"` // old/new manifest images around compaction steps
-	AutoCompact bool  `json:"autoCompact"` // true: background compactions as in production; false: compactions only at compact steps
+	Mode        string  `json:"mode"`
+	Tab         []serT  `json:"tab"` // abstract series table (SeriesTab of the spec), index 1-based in steps
+	Steps       []stepT `json:"steps"`
+	KeepSfile   bool    `json:"keepSfile"`
+	CacheSize   int     `json:"cacheSize"`
+	Parts       int     `json:"parts"`
+	MaxLog      int64   `json:"maxLog"`
+	Variant     int     `json:"variant"`
+	Sweep       int     `json:"sweep"`       // crash images per step (0 = none)
+	Manifest    bool    `json:"manifest"`    // old/new manifest images around compaction steps
+	AutoCompact bool    `json:"autoCompact"` // true: background compactions as in production; false: compactions only at compact steps
 }
 
 var absMeas = []string{"m1", "m2"}
@@ -86,10 +86,10 @@ var variants = []map[string]string{
 
 type allowAll struct{}
 
-func (allowAll) AuthorizeDatabase(influxql.Privilege, string) bool                 { return true }
-func (allowAll) AuthorizeQuery(string, *influxql.Query) error                      { return nil }
-func (allowAll) AuthorizeSeriesRead(string, []byte, models.Tags) bool              { return true }
-func (allowAll) AuthorizeSeriesWrite(string, []byte, models.Tags) bool             { return true }
+func (allowAll) AuthorizeDatabase(influxql.Privilege, string) bool     { return true }
+func (allowAll) AuthorizeQuery(string, *influxql.Query) error          { return nil }
+func (allowAll) AuthorizeSeriesRead(string, []byte, models.Tags) bool  { return true }
+func (allowAll) AuthorizeSeriesWrite(string, []byte, models.Tags) bool { return true }
 
 var _ query.Authorizer = allowAll{}
 
@@ -399,12 +399,12 @@ type mismatch struct {
 
 // histInfo: what the failing history looked like, for the known-finding predicates
 type histInfo struct {
-	dropped        map[int]bool // series dropped from the index by an acknowledged drop step and not live now
-	ever           map[int]bool // series ever dropped by a drop step of this history
-	dropSinceOpen  map[int]bool // ... and no reopen/crash since that drop (the cache still is the one that saw the drop)
-	keep           bool
-	cacheOn        bool
-	tab            []serT
+	dropped       map[int]bool // series dropped from the index by an acknowledged drop step and not live now
+	ever          map[int]bool // series ever dropped by a drop step of this history
+	dropSinceOpen map[int]bool // ... and no reopen/crash since that drop (the cache still is the one that saw the drop)
+	keep          bool
+	cacheOn       bool
+	tab           []serT
 }
 
 func (h *histInfo) allDropped(xs []int, m string) bool {
